@@ -287,6 +287,22 @@ impl<'a> Stream<'a> {
     }
 }
 
+impl<'a> Stream<'a> {
+    /// plain safe iteration from the back of what is left, at most `cap` items
+    pub fn drain_back(&mut self, cap: usize) -> (Vec<Obs>, bool) {
+        let mut out = Vec::new();
+        loop {
+            if out.len() >= cap {
+                return (out, true);
+            }
+            match self.next_back_obs() {
+                Some(o) => out.push(o),
+                None => return (out, false),
+            }
+        }
+    }
+}
+
 // ---------------------------------------------------------------------------------------
 // the simulator-owned source (stub): an honest double-ended trusted-length stream over a script
 
@@ -294,6 +310,7 @@ thread_local! {
     pub static SIM_PULLS: Cell<u64> = const { Cell::new(0) };
 }
 
+#[derive(Clone)]
 pub struct SimSource<I> {
     items: Vec<Option<I>>,
     front: usize,
